@@ -58,6 +58,7 @@ fn main() {
     let mut rng = Rng::new(seed ^ (prop.bytes().fold(0u64, |a, b| a.wrapping_mul(131) + u64::from(b))));
     let cases: Vec<Case> = match prop {
         "C01" => c01::cases(&mut rng, count, tier),
+        "C01r" => c01::cases_r(&mut rng, count, tier),
         "C02" | "C03" | "C19" => cworld::cases_simple(&mut rng, count, tier, prop),
         "C15" => cworld::cases_c15(&mut rng, count, tier),
         "C03f" => cworld::cases_c03f(&mut rng, count, tier),
